@@ -517,7 +517,7 @@ func C07() int {
 	for _, m := range c07Modes {
 		total += c.Counter("hostile_lines_judged_" + m.name)
 	}
-	c.Set("race_reports", s.RaceReports())
+	raceVerdict(s, c)
 	c.Set("sut_statement_coverage_percent", s.CoverFuncs())
 	if total < 30000 || c.Counter("truncations") < 5000 || c.Counter("mutants") < 5000 {
 		c.Inconclusive(fmt.Sprintf("too few observations: %d judged through the CLI, %d truncations, %d mutants", total, c.Counter("truncations"), c.Counter("mutants")))
